@@ -116,6 +116,10 @@ pub struct Case {
   pub ops: Vec<Op>,
   /// `plan[n]` = the n-th storage call (both stores, whole history, oracle calls excluded) fails.
   pub plan: Vec<bool>,
+  /// 0: injected faults are of kind `Unavailable`; 1: of kind `KeyNotFound` / `KeyIdNotFound` (a store that loses
+  /// sight of an entry it holds): whatever the kind, a failed call is a failed call.
+  #[serde(default)]
+  pub fault_kind: u8,
 }
 
 const RELS: [(&str, MethodRelationship); 5] = [
@@ -436,6 +440,7 @@ fn run_history<D: TestDoc>(case: &Case) -> Result<Trace, Viol> {
   let (json, mut fragments, backed) = base_document_json(D::DID, &case.base);
   let mut doc: D = fixture!(D::parse(json), "base document");
   let ctl = FaultCtl::new(case.plan.clone());
+  ctl.set_not_found_faults(case.fault_kind == 1);
   let storage: FStorage = Storage::new(
     FaultyJwkStorage::new(JwkMemStore::new(), ctl.clone()),
     FaultyKeyIdStorage::new(KeyIdMemstore::new(), ctl.clone()),
@@ -917,7 +922,7 @@ fn tree_iter(shapes: Vec<Case>) -> TreeIter {
 }
 
 fn shape(doc: DocKind, methods: Vec<BaseMethod>, extras: bool, ops: Vec<Op>) -> Case {
-  Case { doc, base: Base { methods, extras }, ops, plan: Vec::new() }
+  Case { doc, base: Base { methods, extras }, ops, plan: Vec::new(), fault_kind: 0 }
 }
 
 const DOCS: [DocKind; 2] = [DocKind::Core, DocKind::Iota];
@@ -1044,7 +1049,11 @@ fn history_strategy() -> impl Strategy<Value = Case> {
     // fault density varies per case: sparse plans reach deep into the history, dense ones pile up faults
     prop_oneof![Just(0.1f64), Just(0.25), Just(0.5)].prop_flat_map(|p| prop::collection::vec(prop::bool::weighted(p), 0..=40)),
   )
-    .prop_map(|(doc, methods, extras, ops, plan)| Case { doc, base: Base { methods, extras }, ops, plan })
+    .prop_map(|(doc, methods, extras, ops, plan)| {
+      // a third of the histories report their faults as "not found"
+      let fault_kind = (plan.len() % 3 == 1) as u8;
+      Case { doc, base: Base { methods, extras }, ops, plan, fault_kind }
+    })
 }
 
 pub fn run(ctx: &mut Ctx) {
@@ -1071,8 +1080,18 @@ pub fn run(ctx: &mut Ctx) {
   ctx.assume("key material and key ids come from OS randomness inside JwkMemStore::generate; control flow and verdicts do not depend on them");
   ctx.assume("only the in-memory stores are wrapped; order of methods inside a set is not compared");
 
-  ctx.exhaustive("tree-generate", || tree_iter(generate_shapes()), check);
-  ctx.exhaustive("tree-purge", || tree_iter(purge_shapes()), check);
+  let both_kinds = |shapes: Vec<Case>| -> Vec<Case> {
+    shapes
+      .into_iter()
+      .flat_map(|c| {
+        let mut not_found = c.clone();
+        not_found.fault_kind = 1;
+        [c, not_found]
+      })
+      .collect()
+  };
+  ctx.exhaustive("tree-generate", move || tree_iter(both_kinds(generate_shapes())), check);
+  ctx.exhaustive("tree-purge", move || tree_iter(both_kinds(purge_shapes())), check);
   let len = ctx.pick(2, 3);
   ctx.exhaustive("tree-sequences", move || tree_iter(sequence_shapes(len)), check);
   ctx.proptest("histories", ctx.pick(20_000, 400_000), history_strategy, check);
@@ -1093,7 +1112,6 @@ pub fn run(ctx: &mut Ctx) {
     "tree-purge:purge-first-fault-at-call-2",
     "tree-purge:purge-rollback=err",
     "tree-purge:purge-rollback=undo-failed",
-    "tree-purge:purge-natural-storage-error",
   ] {
     ctx.require_class(class, 2);
   }
